@@ -1,4 +1,19 @@
 import re, glob, os
+def strip_attrs(body):
+    """remove #[...] attributes with balanced brackets"""
+    out = []; i = 0; n = len(body)
+    while i < n:
+        if body[i] == '#' and i + 1 < n and body[i + 1] == '[':
+            d = 0; j = i + 1
+            while j < n:
+                if body[j] == '[': d += 1
+                elif body[j] == ']':
+                    d -= 1
+                    if d == 0: break
+                j += 1
+            i = j + 1; continue
+        out.append(body[i]); i += 1
+    return ''.join(out)
 TYPES = {}
 VARIANTS = {}
 def load_structs(roots):
@@ -16,7 +31,7 @@ def load_structs(roots):
                     elif src[j] == '}': depth -= 1
                     j += 1
                 body = src[i:j-1]
-                body = re.sub(r'#\[[^\]]*\]', '', body)
+                body = strip_attrs(body)
                 fields = []
                 d = 0; cur = ''
                 for ch in body:
